@@ -385,7 +385,12 @@ def run(ctx: vlib.Ctx):
                             case["value"] = value
                             case["wire"] = L.wire_of(schema, value, drop_default_none=(L.fmt_of(entry) == "toml" or rng.random() < 0.3))
                         t0 = time.time()
-                        res, verdict = evaluate(case, mod)
+                        # /repo shares one discriminator registry between formats: after from_dict has filled it,
+                        # from_msgpack/from_toml/from_json(orjson) of the same class recurse forever (a call-history
+                        # defect outside C19, reported to C14).  Those entries get a module of their own.
+                        fresh = (schema.get("has_disc") and entry["via"] == "mixin" and entry["method"] != "from_dict"
+                                 and schema["kind"] in ("orjson", "msgpack", "toml"))
+                        res, verdict = evaluate(case, None if fresh else mod)
                         t_lib += time.time() - t0
                         ctx.count(shape_key(schema, root_ty, value, entry))
                         ctx.hist("entry_points", direction + ":" + (entry.get("method") or "codec-" + entry["codec"])
